@@ -269,7 +269,7 @@ func unitC19ecdsa(e common.Env, p *common.Part) {
 }
 
 func c19unit(e common.Env, p *common.Part, kind string, nts []nt, reps int) {
-	p.Rule = "complete key-generation and signing runs of the " + kind + " adapter wired directly with a recording sendMsg (every (bytes, isBroadcast, to) captured), several (n,t) and identifier sets (1..n, gaps, PRNG 16-bit): (a) every emitted message classified by every receiver: broadcast flag = tss-lib's routing flag, round != 0, no error, distinct broadcast messages of one sender and phase get distinct rounds; (b) digests of length 0,1,31,32,33,64 and with 1,2,4 leading zero bytes: every signer obtains a signature that an independent library (crypto/ed25519 resp. crypto/ecdsa) verifies for the requested digest under the threshold key, or an error; (c) one signer asks for a different digest than the others; (d) re-attribution: captured genuine messages delivered again under every other session member's identity before the genuine traffic, and by an outsider whose identifier lies between the members'; honest parties must end with consistent key material / verifying signatures or an error, never a non-verifying signature; outsider traffic must have no effect; distinct key = (adapter, n, t, ids, case); non-trivial always"
+	p.Rule = "complete key-generation and signing runs of the " + kind + " adapter wired directly with a recording sendMsg (every (bytes, isBroadcast, to) captured), several (n,t) and identifier sets (1..n, gaps, PRNG 16-bit): (a) every emitted message classified by every receiver: broadcast flag = tss-lib's routing flag, round != 0, no error, distinct broadcast messages of one sender and phase get distinct rounds; (b) digests of length 0,1,31,32,33,64 and with 1,2,4 leading zero bytes: every signer obtains a signature that an independent library (crypto/ed25519 resp. crypto/ecdsa) verifies for the requested digest under the threshold key, or an error; (c) one signer asks for a different digest than the others; (d) re-attribution: captured genuine messages delivered again under every other session member's identity before the genuine traffic, and by an outsider whose identifier lies between the members'; honest parties must end with consistent key material / verifying signatures or an error, never a non-verifying signature; outsider traffic must have no effect; (e) one adapter object per party serves the key generation and then three signing sessions among fewer parties (Init again on the same objects) while the parties that left re-send all signing traffic under their own identities: every signer obtains a verifying signature; distinct key = (adapter, n, t, ids, case); non-trivial always"
 	p.Assumptions = append(p.Assumptions, "in tss-lib v2.0.2 the wire bytes carry no embedded sender (ParseWireMessage stamps the caller-supplied id), so 'embedded sender != transport sender' cannot occur on the wire; what is decided is the consequence the clause protects: no message is ever credited to anyone but its transport sender (safety outcomes under re-attribution and outsider injection)")
 	idx := 0
 	for _, x := range nts {
@@ -322,6 +322,9 @@ func c19unit(e common.Env, p *common.Part, kind string, nts []nt, reps int) {
 			}
 			if kind == "eddsa" {
 				c19reattribution(e, p, w, label, ids, x, rng)
+			}
+			if kind == "eddsa" || e.Thorough() {
+				c19formerMembers(e, p, kind, label, ids, x, rng)
 			}
 			if idx%2 == 0 {
 				p.Sample(map[string]interface{}{"adapter": kind, "n": x.n, "t": x.t, "ids": ids, "messages_captured": len(w.emittedLog())})
@@ -415,6 +418,64 @@ func c19reattribution(e common.Env, p *common.Part, w0 *wiring, label string, id
 			}
 		}
 		p.Case(fmt.Sprintf("%s reattribution victim=%d slot=%d", label, victim, which), true)
+	}
+}
+
+// c19formerMembers: ONE adapter object per party serves the key generation among all parties and then signing sessions among fewer
+// of them (Init is called again on the same objects). The parties that left re-send, under their own authenticated identities,
+// every message of the signing session to its receivers before the genuine copy arrives. They are outsiders of the signing session:
+// their traffic must have no effect, every signer obtains a verifying signature.
+func c19formerMembers(e common.Env, p *common.Part, kind, label string, ids []uint16, x nt, rng *mrand.Rand) {
+	if x.t+1 >= len(ids) {
+		return
+	}
+	w := newWiring(kind, ids, x.t)
+	w.keep = true
+	shares, tpk, ok := keygenAndCheck(w, p, label+" long-lived instances")
+	if !ok {
+		return
+	}
+	for trial := 0; trial < 3 && p.ViolationCount() < 3; trial++ {
+		var signers []uint16
+		switch trial {
+		case 0:
+			signers = append(signers, ids[len(ids)-x.t-1:]...) // the highest identifiers stay
+		case 1:
+			signers = append(signers, ids[:x.t+1]...) // the lowest stay
+		default:
+			signers = pickSigners(rng, ids, x.t+1)
+		}
+		in := map[uint16]bool{}
+		for _, s := range signers {
+			in[s] = true
+		}
+		var former []uint16
+		for _, id := range ids {
+			if !in[id] {
+				former = append(former, id)
+			}
+		}
+		w.route = func(em emitted, deliver deliverFn) {
+			for _, f := range former {
+				if em.Bcast {
+					for _, m := range signers {
+						if m != em.From {
+							deliver(m, em.Data, f, true)
+						}
+					}
+				} else {
+					deliver(em.To, em.Data, f, false)
+				}
+				p.Count("former_member_replays", 1)
+			}
+			w.genuine(em, signers)
+		}
+		d := sha256.Sum256([]byte(fmt.Sprintf("former members %d", trial)))
+		lbl := fmt.Sprintf("%s: instances re-initialised for signers %v, former members %v re-send all traffic under their own identities", label, signers, former)
+		signAndCheck(w, p, lbl, shares, tpk, signers, sameDigest(signers, d[:]), true, 20*time.Second)
+		p.Case(lbl, true)
+		p.Count("reinitialised_sessions", 1)
+		w.route = nil
 	}
 }
 
